@@ -407,13 +407,13 @@ PROPS = {
                     'batches of all eight payload kinds, payloads up to 65535 bytes. Non-trivial = distinct episodes with a '
                     'non-empty batch.',
             'assumptions': COMMON_ASSUMPTIONS},
-    'C07': {'level': 'model_checking', 'stages': [ENC_BATCH, ENC_RANDOM, ENC_HIST, ENC_PAIRS, ENC_HRANDOM, SUITE_ENC, EXAMPLE_ENC], 'nontrivial_case': nt_enc_any,
+    'C07': {'level': 'model_checking', 'stages': [ENC_BATCH, ENC_RANDOM, ENC_PAIRS, ENC_HRANDOM, SUITE_ENC, EXAMPLE_ENC], 'nontrivial_case': nt_enc_any,
             'rule': 'as C01; monitor FramesWellFormed (independent frame walker of spec/Frames.tla) on the logged frames. '
-                    'Also on encoders with a history (MC_Enc/EncHist: every sequence of operations; seeded random histories whose '
+                    'Also on encoders with a history (MC_Enc/EncPairs: every history of 3 (4) calls over frame sizes x padding x lengths x message types; seeded random histories whose '
                     'calls change the frame sizes, message types and ids between calls). '
                     'Non-trivial = distinct episodes with a non-empty batch; counters give how many calls needed segmentation, aggregation, padding.',
             'assumptions': COMMON_ASSUMPTIONS},
-    'C08': {'level': 'model_checking', 'stages': [ENC_BATCH, ENC_WRAP, ENC_RANDOM, ENC_HIST, ENC_PAIRS, ENC_HRANDOM, SUITE_ENC], 'nontrivial_case': nt_enc_segmented,
+    'C08': {'level': 'model_checking', 'stages': [ENC_BATCH, ENC_WRAP, ENC_RANDOM, ENC_PAIRS, ENC_HRANDOM, SUITE_ENC], 'nontrivial_case': nt_enc_segmented,
             'rule': 'as C01 with lengths on both sides of every fit/no-fit boundary; monitor SegRules on the logged frames; also on encoders with a history (as C07). '
                     'Non-trivial = distinct episodes in which at least one packet needed segmentation.',
             'assumptions': COMMON_ASSUMPTIONS},
